@@ -118,6 +118,7 @@ def _rules():
             lambda R, c, rid: accessors.options_codec(R, c, rid),
             lambda R, c, rid: c09_prims.rule_json(R, c, rid),
             lambda R, c, rid: c09_prims.rule_varint(R, c, rid),
+            lambda R, c, rid: c09_prims.rule_packed(R, c, rid),
         ],
         "merge": [
             lambda R, c, rid: c08.rule_e(R, c, rid),
@@ -179,7 +180,7 @@ DEPENDS = {
     "C01": ["squash", "splice", "partial", "flags", "stash-deletes", "lookup", "content", "export", "liveness", "block-wire", "merge", "state-vector", "identity", "weak-wire", "update-events", "creation", "delete-set"],
     "C02": ["stash-deletes", "lookup", "export", "block-wire", "merge", "state-vector"],
     "C03": ["splice", "conflict", "lookup", "content", "map-api", "text-units", "creation", "liveness", "type-api"],
-    "C04": ["splice", "dependency", "stash-deletes", "lookup", "content", "block-iter", "update-events", "liveness"],
+    "C04": ["splice", "dependency", "stash-deletes", "lookup", "content", "block-iter", "update-events", "liveness", "block-wire"],
     "C05": ["conflict", "squash", "splice", "dependency", "map-api", "merge", "delete-set", "update-events", "liveness", "type-api"],
     "C06": ["dependency", "delete-set", "slice", "partial", "lookup", "content", "merge", "state-vector", "liveness", "block-wire"],
     "C07": ["delete-set", "slice", "partial", "export", "liveness", "block-wire", "state-vector", "creation"],
